@@ -10,6 +10,7 @@ import QSP.Model.Validators
 import QSP.Model.SymQSP
 import QSP.Model.Jacobian
 import QSP.Model.Generators
+import QSP.Model.Accuracy
 open QSP QSP.Proto
 
 def bad : String := "bad-op"
@@ -244,6 +245,19 @@ def handle (toks : List String) : String :=
     match parseRat s1, parseRat s2, parseRatList ci, parseRatList cr with
     | some s1, some s2, some ci, some cr => showGen (.ok (invRectGenerate (rs = "1") ci cr s1 s2))
     | _, _, _, _ => bad
+  -- accuracy certificates -----------------------------------------------------------------
+  | ["valid.trig", kind, tau, eps, scale, n, depth, c] =>
+    match parseRat tau, parseRat eps, parseRat scale, n.toNat?, depth.toNat?, parseRatList c with
+    | some t, some e, some sc, some n, some dp, some c => showV (.ok (validTrig (kind = "sin") t e sc n c dp))
+    | _, _, _, _, _, _ => bad
+  | ["valid.inv", kappa, eps, scale, b, c] =>
+    match parseRat kappa, parseRat eps, parseRat scale, b.toNat?, parseRatList c with
+    | some k, some e, some sc, some b, some c => showV (.ok (validInv k e sc b c))
+    | _, _, _, _, _ => bad
+  | ["cheb.m2c", a] =>
+    match parseRatList a with
+    | some a => showRatList (monoToCheb a)
+    | none => bad
   -- sup-norm certificate -----------------------------------------------------------------
   | ["sup.real", bnd, depth, d, l] =>
     match parseRat bnd, depth.toNat?, d.toInt?, parseRatList l with
